@@ -250,3 +250,18 @@ func relRepo(path string) string {
 	}
 	return path
 }
+
+// lookupFull finds a package-level function by its full name "import/path.Func".
+func (P *Program) lookupFull(full string) *ssa.Function {
+	i := strings.LastIndex(full, ".")
+	if i < 0 {
+		return nil
+	}
+	path, name := full[:i], full[i+1:]
+	for _, sp := range P.Prog.AllPackages() {
+		if sp.Pkg.Path() == path {
+			return sp.Func(name)
+		}
+	}
+	return nil
+}
